@@ -31,6 +31,7 @@ func Explore(pkg *ssa.Package, fn string, sizes types.Sizes, budget time.Duratio
 	}
 	EX = e
 	defNames = map[string]string{}
+	seenVars = map[string]int{}
 	pendingDefs = nil
 	varRange = map[string][2]*big.Int{}
 	varSigned = map[string]bool{}
@@ -65,6 +66,9 @@ func intrinsic(name string, args []value) (value, bool) {
 	case "zzNondetByte":
 		return EX.nondet(args[0].(string), types.Uint8), true
 	case "zzNondetRange":
+		if Fixed != nil {
+			return EX.nondet(args[0].(string), types.Uint64), true
+		}
 		v := EX.nondet(args[0].(string), types.Uint64).(sym)
 		lo, hi := new(big.Int).SetUint64(args[1].(uint64)), new(big.Int).SetUint64(args[2].(uint64))
 		varRange[v.t.Name] = [2]*big.Int{lo, hi}
@@ -74,6 +78,13 @@ func intrinsic(name string, args []value) (value, bool) {
 		return EX.nondet(args[0].(string), types.Int64), true
 	case "zzChoose":
 		n := args[1].(int)
+		if Fixed != nil {
+			c := EX.nondet(args[0].(string), types.Int).(int)
+			if c < 0 || c >= n {
+				c = 0
+			}
+			return c, true
+		}
 		v := EX.nondet(args[0].(string), types.Int).(sym)
 		varRange[v.t.Name] = [2]*big.Int{big.NewInt(0), big.NewInt(int64(n - 1))}
 		z := mkConst(64, 0)
